@@ -499,13 +499,29 @@ def run_case(case, res):
                 continue
             import copy
             import pickle
-            how = "deepcopy" if aux % 2 else "pickle"
-            got = _guard(f"{how} of the cache", 4 * n + 10, (lambda: copy.deepcopy(c)) if aux % 2 else (lambda: pickle.loads(pickle.dumps(c))))
-            if got[0] != "ok" or type(got[1]) is not type(c):
-                raise Violation("operation-raised", f"{how} of a cache with {n} entries -> {got}", {})
-            c = got[1]
-            desc = f"continuing with a {how} of the cache"
-            res.count("clones_continued_with")
+            if aux % 4 >= 2:
+                # a shallow copy (it shares the storage with the original) and one of the two handles is dropped and collected:
+                # the survivor is the cache it was
+                import gc
+                got = _guard("copy.copy of the cache", 4 * n + 10, lambda: copy.copy(c))
+                if got[0] != "ok" or type(got[1]) is not type(c):
+                    raise Violation("operation-raised", f"copy.copy of a cache with {n} entries -> {got}", {})
+                if aux % 4 == 2:
+                    c = got[1]
+                    desc = "a copy.copy of the cache taken, the original dropped and collected; continuing with the copy"
+                else:
+                    desc = "a copy.copy of the cache taken, dropped and collected; continuing with the original"
+                got = None
+                gc.collect()
+                res.count("shallow_copies_with_one_handle_dropped")
+            else:
+                how = "deepcopy" if aux % 2 else "pickle"
+                got = _guard(f"{how} of the cache", 4 * n + 10, (lambda: copy.deepcopy(c)) if aux % 2 else (lambda: pickle.loads(pickle.dumps(c))))
+                if got[0] != "ok" or type(got[1]) is not type(c):
+                    raise Violation("operation-raised", f"{how} of a cache with {n} entries -> {got}", {})
+                c = got[1]
+                desc = f"continuing with a {how} of the cache"
+                res.count("clones_continued_with")
         elif op == "clear":
             got = _guard("clear()", n, lambda: c.clear())
             if got != ("ok", None):
